@@ -43,7 +43,7 @@ def run(pid, tier, seed, replay=None):
         with open(replay) as fh:
             rp = json.load(fh)
         case = rp["trace"]["input"]
-        trs = fix(run_tasks("sat", "run_sat", [case], timeout=30), [case])
+        trs = fix(run_tasks("sat", "run_sat", [case], timeout=600), [case])
         vs = ck.validate(DIR, "CdclTrace", trs, "replay")
         ck.classify(trs, [mine(pid, v) for v in vs])
         return ck.finish()
@@ -95,7 +95,7 @@ def run(pid, tier, seed, replay=None):
             for lf in (1, 3):
                 cases.append({"clauses": drv.pigeonhole(p, h), "assumptions": [], "limit": 1, "max_conflicts": 100000,
                               "max_restarts": 10000, "luby_factor": lf})
-    trs = fix(run_tasks("sat", "run_sat", cases, timeout=60 if tier == "quick" else 120), cases)
+    trs = fix(run_tasks("sat", "run_sat", cases, timeout=300), cases)
     vs = ck.validate(DIR, "CdclTrace", trs, "recorded solve_sat executions", timeout=14400)
     ck.classify(trs, [mine(pid, v) for v in vs], nontrivial=lambda t, v: t.get("internal_events", 0) >= 3)
     for t in trs:
